@@ -58,6 +58,7 @@ type Ctx struct {
 	distinct map[string]map[uint64]struct{}
 	job      int
 	maxViol  int
+	known    map[string]bool
 }
 
 // Thorough reports whether the thorough tier was requested.
@@ -168,8 +169,30 @@ func NewLocalCtx(prop string) *Ctx {
 	return c
 }
 
+// IsKnown reports whether a violation key is listed as a known finding of this property (the search
+// then goes on instead of stopping at it, so that a different violation is still found).
+func (c *Ctx) IsKnown(key string) bool {
+	if c.known == nil {
+		c.known = map[string]bool{}
+		for _, k := range loadKnown() {
+			if k.Status == "known" && k.Property == c.Prop {
+				c.known[k.Key] = true
+			}
+		}
+	}
+	return c.known[key]
+}
+
 // NViolations returns the number of violations recorded by this worker.
-func (c *Ctx) NViolations() int { return len(c.res.Violations) }
+func (c *Ctx) NViolations() int {
+	n := 0
+	for _, v := range c.res.Violations {
+		if !c.IsKnown(v.Key) {
+			n++
+		}
+	}
+	return n
+}
 
 // HarnessError aborts the worker with a harness error (exit 2 at the coordinator, no VIOLATION line).
 func (c *Ctx) HarnessError(format string, a ...interface{}) {
@@ -194,6 +217,7 @@ type CheckInfo struct {
 	StatesKey, TransKey, TracesKey, EvalKey string
 	DistinctClass                           string
 	Serial                                  bool // run a single worker
+	ASLimitMB                               int  // address-space limit of a worker (default 12288); checks that memory-map real files need more
 }
 
 var registry = map[string]*CheckInfo{}
@@ -231,7 +255,11 @@ func WorkerMain(prop, tier string, shard, nshards int, out string, budget time.D
 		os.Exit(2)
 	}
 	// address-space limit so that a runaway allocation fails this worker, not the sandbox
-	lim := uint64(envInt("VERIF_WORKER_AS_MB", 12288)) << 20
+	defAS := 12288
+	if ci.ASLimitMB > 0 {
+		defAS = ci.ASLimitMB
+	}
+	lim := uint64(envInt("VERIF_WORKER_AS_MB", defAS)) << 20
 	_ = syscall.Setrlimit(syscall.RLIMIT_AS, &syscall.Rlimit{Cur: lim, Max: lim})
 	seed, _ := strconv.ParseInt(os.Getenv("VERIF_SEED"), 10, 64)
 	c := &Ctx{Prop: prop, Tier: tier, Seed: seed, Shard: shard, NShards: nshards, Deadline: time.Now().Add(budget), Args: args,
